@@ -385,6 +385,7 @@ def gen_more(rng, n_ops, ref, keys, cfg, free=False, allow_reopen=True, allow_bi
         r = rng.below(1000)
         k = rng.choice(keys)
         raced = False
+        after_deadline = None
         if r < 190:
             op = "set %s %s" % (hexs(k), hexs(gen_value(rng, allow_big)))
         elif r < 300:
@@ -464,6 +465,9 @@ def gen_more(rng, n_ops, ref, keys, cfg, free=False, allow_reopen=True, allow_bi
             # (several keys under a tiny inline-compaction threshold: the compactions fall BETWEEN the delete records, so the trace
             # depends on the order keysWithPrefix returned the keys; that order is an input of the model, see lockstep())
             op = "rmprefix %s" % hexs(p)
+            dls = [e for x, (v, e) in ref.m.items() if x.startswith(p) and e is not None]
+            if dls and not free and clock and rng.chance(3, 4):
+                after_deadline = max(dls)      # a removed key had a TTL: read size()/exists/ttl again once its FORMER deadline has passed (seed C12-e)
             if nmatch > 1 and small_log:
                 dist["rmprefix-multi-inline"] = dist.get("rmprefix-multi-inline", 0) + 1
         elif r < 735:
@@ -526,6 +530,10 @@ def gen_more(rng, n_ops, ref, keys, cfg, free=False, allow_reopen=True, allow_bi
             ops.append("sleep %d" % rng.choice([1, 2, 5, 12]))
         if read_every and (op.split()[0] != "get" or raced or rng.chance(1, 3)):
             read_all()
+        if after_deadline is not None and ref.now <= after_deadline < MAXMS - 1:
+            emit("now %d" % min(after_deadline + rng.choice([0, 1, 1000]), MAXMS - 1))     # the clock cannot pass the last representable instant
+            dist["rmprefix-then-read-after-former-deadline"] = dist.get("rmprefix-then-read-after-former-deadline", 0) + 1
+            read_all()
     return ops
 
 
@@ -578,7 +586,9 @@ def monitor_reads(ops, impl, start_ref=None):
             got = result_of(l)
             if want is not None and got != want:
                 bad.append("M1: result of op %d `%s`: got `%s` want `%s`" % (i, op[:80], got[:80], want[:80]))
-    return bad
+    # what a caller can observe through the PUBLIC API comes first; the harness's internal-invariant probe (cache coherence, _expiry within _kv) only
+    # when no public read of the case differs
+    return [b for b in bad if not b.startswith("M1(cache)")] + [b for b in bad if b.startswith("M1(cache)")]
 
 
 def short(s, n=400):
